@@ -200,9 +200,11 @@ def modelOp (d : DState) (toks : List String) : Option MOut :=
                            pend := d.pend ++ [⟨tag, .slow none nslow⟩] }
         else
           let st2 := doL st1 (.postEnd none false)
+          -- (a notification is handled by the temporary session before the POST is acknowledged)
           let log := match kind with
             | "init" => [s!"e/{user}/initialize"]
             | "ping" => [s!"e/{user}/ping"]
+            | "notif" => [s!"e/{user}/notifications/initialized"]
             | _ => []
           some { base with st := st2, head := (if kind == "notif" then "202 -" else "200 -"), log := log }
       else
